@@ -78,6 +78,44 @@ pub fn with_unrelated_definition(text: &str, k: usize) -> Option<(String, String
     Some((out.join("\n"), format!("{} {:?}", b.btype, b.name)))
 }
 
+/// Text with two adjacent blocks of the same by-name type swapped (the `k`-th such pair).
+pub fn with_swapped_blocks(text: &str, k: usize) -> Option<(String, String)> {
+    let lines = diskfault::split_lines(text);
+    let blocks = diskfault::scan_blocks(&lines);
+    let pairs: Vec<(usize, usize)> = (0..blocks.len().saturating_sub(1))
+        .filter(|i| {
+            let (a, b) = (&blocks[*i], &blocks[*i + 1]);
+            a.btype == b.btype && UNRELATED_TYPES.contains(&a.btype.as_str()) && b.start == a.end + 1
+        })
+        .map(|i| (i, i + 1))
+        .collect();
+    if pairs.is_empty() {
+        return None;
+    }
+    let (i, j) = pairs[k % pairs.len()];
+    let (a, b) = (&blocks[i], &blocks[j]);
+    let mut out: Vec<&str> = lines[..a.start].to_vec();
+    out.extend_from_slice(&lines[b.start..=b.end]);
+    out.extend_from_slice(&lines[a.start..=a.end]);
+    out.extend_from_slice(&lines[b.end + 1..]);
+    Some((out.join("\n"), format!("{} {:?} <-> {:?}", a.btype, a.name, b.name)))
+}
+
+/// Text with one by-name block that nothing refers to renamed (the `k`-th such block).
+pub fn with_renamed_unreferenced(text: &str, k: usize) -> Option<(String, String, String)> {
+    let lines = diskfault::split_lines(text);
+    let blocks: Vec<_> = diskfault::scan_blocks(&lines)
+        .into_iter()
+        .filter(|b| UNRELATED_TYPES.contains(&b.btype.as_str()) && text.matches(&format!("\"{}\"", b.name)).count() == 1)
+        .collect();
+    if blocks.is_empty() {
+        return None;
+    }
+    let b = &blocks[k % blocks.len()];
+    let edited = diskfault::apply(text, &diskfault::Edit::DefRenamed { line: b.start })?;
+    Some((edited, format!("{} {:?}", b.btype, b.name), b.name.clone()))
+}
+
 fn convert_any(kind: FileKind, text: &str) -> Result<Model, anyhow::Error> {
     match kind {
         FileKind::Ctehexml => disk::convert_ctehexml(text, 1),
@@ -136,17 +174,28 @@ pub fn exec_op(op: &Value) -> Value {
                 let (k, text) = disk::text_of(op["file"].as_str().unwrap_or(""));
                 let base = convert_any(k, &text).map_err(|e| e.to_string())?;
                 let base_ids = id_map(&serde_json::to_value(&base).map_err(|e| e.to_string())?);
-                let (edited, what) = with_unrelated_definition(&text, op["def"].as_u64().unwrap_or(0) as usize)
-                    .ok_or_else(|| "no eligible block".to_string())?;
+                let kk = op["def"].as_u64().unwrap_or(0) as usize;
+                let mut renamed: Option<String> = None;
+                let (edited, what) = match op["mode"].as_str().unwrap_or("copy") {
+                    "swap" => with_swapped_blocks(&text, kk).ok_or_else(|| "no eligible block".to_string())?,
+                    "rename_unused" => {
+                        let (t, w, n) = with_renamed_unreferenced(&text, kk).ok_or_else(|| "no eligible block".to_string())?;
+                        renamed = Some(n);
+                        (t, w)
+                    }
+                    _ => with_unrelated_definition(&text, kk).ok_or_else(|| "no eligible block".to_string())?,
+                };
                 let m2 = convert_any(k, &edited).map_err(|e| format!("edited project no longer converts: {}", e))?;
                 let ids2 = id_map(&serde_json::to_value(&m2).map_err(|e| e.to_string())?);
                 let changed: Vec<String> = base_ids
                     .iter()
+                    // the renamed element itself is not "existing and unrelated"
+                    .filter(|(k, _)| renamed.as_ref().map(|n| !k.ends_with(&format!("/{}", n))).unwrap_or(true))
                     .filter(|(k, id)| ids2.get(*k) != Some(id))
                     .map(|(k, _)| k.clone())
                     .collect();
                 Ok(json!({"hash": md5hex(format!("{:?}", changed).as_bytes()), "len": changed.len(),
-                    "changed_n": changed.len(), "changed": changed.iter().take(5).collect::<Vec<_>>(), "added": what,
+                    "changed_n": changed.len(), "changed": changed.iter().take(5).collect::<Vec<_>>(), "added": format!("{}: {}", op["mode"].as_str().unwrap_or("copy"), what),
                     "collections_changed": changed.iter().map(|c| c.split('/').next().unwrap_or("").to_string()).collect::<std::collections::BTreeSet<_>>()}))
             }
             "indicators" => {
